@@ -8,6 +8,8 @@ def run(ctx):
 
 
 def replay(data):
+    if lexeme.is_token_record(data):
+        return lexeme.replay_token("C01", data)
     if lexeme.is_time_record(data):
         return lexeme.replay_time("C01", data)
     if lexeme.is_encoder_record(data):
